@@ -354,6 +354,20 @@ func main() {
 			break
 		}
 	}
+	// a block whose write batch is megabytes large (160 transactions of 14 kB): the whole of it is still one atomic step
+	if !finOnly {
+		nbig := 0
+		for _, sc0 := range scripts {
+			last := sc0[len(sc0)-1]
+			if last.Op == "block" && last.Accepted && last.Ntx >= 0 && last.Chg == 0 && nbig < 2 {
+				big := append([]Step{}, sc0...)
+				big[len(big)-1].Ntx = 160
+				big[len(big)-1].Payload = "big"
+				scripts = append(scripts, big)
+				nbig++
+			}
+		}
+	}
 	out := &Out{Scripts: len(scripts), Steps: map[string]int{}, Distinct: len(shapes)}
 	w, err := tj.NewWriter(os.Args[4])
 	if err != nil {
